@@ -47,6 +47,9 @@ Record obs := {
   o_red_add : option entries;  (* reduce(Add(Assets(to_exprs a), Assets(to_exprs b))) *)
   o_red_sub : option entries;
   o_red_neg : option entries;
+  o_boosted : bool;        (* the clamped operations were applied to a and b scaled by 2^125 *)
+  o_sat_add : entries;     (* saturating_add *)
+  o_sat_sub : entries;     (* saturating_sub *)
 }.
 
 Record case := { c_a : vexpr; c_b : vexpr; c_c : vexpr; c_obs : obs }.
@@ -63,6 +66,10 @@ Definition same_opt (l : option entries) (m : outcome assets) : bool :=
   end.
 
 Definition aeqb (a b : assets) : bool := eq_impl a b.
+
+(** the scaling the harness applies before the clamped operations: every amount times 2^125,
+    zero entries dropped (the scaled value is rebuilt by addition) *)
+Definition boost (a : assets) : assets := strip ((fun z => z * 2 ^ 125) <$> a).
 
 (** model vs implementation: ids 1.. ; laws on the implementation's outputs: ids 101.. *)
 Definition checks (c : case) : list (N * bool) :=
@@ -90,6 +97,8 @@ Definition checks (c : case) : list (N * bool) :=
     (22%N, same_opt (o_red_sub o) (x <- ra ;; y <- rb ;; Ok (a_add x (a_neg y))));
     (23%N, same_opt (o_red_neg o) (x <- ra ;; Ok (a_neg x)));
     (24%N, eqb (o_eq_a_stripped o) true);
+    (25%N, let f := if o_boosted o then boost else (fun x => x) in same (o_sat_add o) (a_sat_add (f a) (f b)));
+    (26%N, let f := if o_boosted o then boost else (fun x => x) in same (o_sat_sub o) (a_sat_sub (f a) (f b)));
     (* the property's laws, on the implementation's own results *)
     (101%N, aeqb (of_entries (o_add_ab o)) (of_entries (o_add_ba o)));
     (102%N, aeqb (of_entries (o_add_ab_c o)) (of_entries (o_add_a_bc o)));
